@@ -823,48 +823,35 @@ class Engine:
 
 def discharge(ob, timeout_ms=10000):
     """Returns (verdict, backend, seconds, model-or-None).
-    verdict: proved / refuted / unknown; for expect_sat (vacuity / cover) obligations: proved (sat), vacuous (unsat), cover-unknown."""
-    import os
-    import subprocess
-    import tempfile
+    verdict: proved / refuted / unknown; for expect_sat (vacuity / cover) obligations: proved (sat), vacuous (unsat), cover-unknown.
+    All solver calls run out of process with a hard kill (vlib/smt.py)."""
+    from vlib import smt
 
     t0 = time.time()
     s = z3.Solver()
     for a in ob.assumptions:
         s.add(a)
     if ob.expect_sat:
-        s.set("timeout", min(timeout_ms, 3000))
-        r = s.check()
+        r, _ = smt.z3_check(s, min(timeout_ms, 3000) / 1000.0)
         dt = time.time() - t0
-        if r == z3.sat:
+        if r == "sat":
             return "proved", "z3", dt, None
-        if r == z3.unsat:
+        if r == "unsat":
             return "vacuous", "z3", dt, None
         return "cover-unknown", "z3", dt, None
-    s.set("timeout", timeout_ms)
     s.add(z3.Not(ob.goal))
-    r = s.check()
+    r, model = smt.z3_check(s, timeout_ms / 1000.0, model=True)
     dt = time.time() - t0
-    if r == z3.unsat:
+    if r == "unsat":
         return "proved", "z3", dt, None
-    if r == z3.sat:
-        return "refuted", "z3", dt, s.model()
-    # second opinion: cvc5 (default, then enumerative instantiation) through SMT-LIB text
-    try:
-        smt = "(set-logic ALL)\n" + s.to_smt2()
-        with tempfile.NamedTemporaryFile("w", suffix=".smt2", delete=False) as f:
-            f.write(smt)
-            fn = f.name
-        try:
-            for opts in ([], ["--enum-inst"], ["--full-saturate-quant"]):
-                out = subprocess.run(["/usr/bin/cvc5"] + opts + ["--tlimit=%d" % (3 * timeout_ms), fn], capture_output=True, text=True,
-                                     timeout=3 * timeout_ms / 1000 + 10).stdout.strip()
-                if out.startswith("unsat"):
-                    return "proved", "cvc5" + ("".join(opts)), time.time() - t0, None
-                if out.startswith("sat"):
-                    return "refuted", "cvc5", time.time() - t0, None
-        finally:
-            os.unlink(fn)
-    except Exception:  # noqa
-        pass
+    if r == "sat":
+        return "refuted", "z3", dt, model
+    # second opinion: cvc5 (default, then enumerative instantiation); generous wall-clock budget: these queries take 2-20 s on an idle machine and
+    # the budget must not flip the verdict when all cores are busy
+    for opts in ([], ["--enum-inst"], ["--full-saturate-quant"]):
+        r, _ = smt.cvc5_check(s, 30 * timeout_ms / 1000.0, opts)
+        if r == "unsat":
+            return "proved", "cvc5" + ("".join(opts)), time.time() - t0, None
+        if r == "sat":
+            return "refuted", "cvc5", time.time() - t0, None
     return "unknown", "z3+cvc5", time.time() - t0, None
